@@ -139,6 +139,9 @@ func VP_C13_open() {
 		vpAssume(t[i] != q && t[i] != '\\')
 	}
 	lit := append([]byte{q}, t...)
+	// optionally a complete escape sequence as the last thing before the end / the line break
+	escs := []string{"", "\\n", "\\\\", "\\'", "\\\"", "\\x41", "\\u0041", "\\0", "\\t"}
+	lit = append(lit, escs[vpChoice("esc", len(escs))]...)
 	mode := vpChoice("mode", 2)
 	if mode == 1 {
 		// open at a line break: break, then a closing quote on the next line
